@@ -27,9 +27,23 @@ def run(ctx):
         ctx.seed -= 5000
     else:
         ctx.corr(hx, ["hist", "--n", "1000", "--len", "40"])
+    # concurrent families: ties the model's "each method is one atomic step" to the code (judged in Go, no Coq cases)
+    if thorough:
+        ctx.corr(hx, ["conc", "--rounds", "12", "--ms", "400"], cases_name="conc.v")
+        conc_race(ctx, ["conc", "--rounds", "6", "--ms", "400"])
+    else:
+        ctx.corr(hx, ["conc", "--rounds", "4", "--ms", "250"], cases_name="conc.v")
     ctx.assumptions += [
-        "one live instance per store at a time (reopen = drop the instance, construct a new one over the same mapdb); "
-        "sequential use (the instance mutex serialises callers; not exercised)",
+        "one live instance per store at a time (reopen = drop the instance, construct a new one over the same mapdb)",
+        "ATOMICITY: the model and every C09 theorem treat each Map/Set method call (Set/Add/Delete/Commit and also the "
+        "reads Has/Get/Root/Size/Stream/WasRestoredFromStorage) as ONE atomic step of a sequential history; the theorems "
+        "quantify over sequential histories only. In the code this holds because every method runs under the instance's "
+        "mutex, exclusively for everything that enters the trie (Has/Get/Root/Stream too: smt drives one shared sha256 "
+        "hasher per trie and rewrites lazily loaded nodes in place), so concurrent callers observe some linearization. "
+        "This is NOT proved; it is tied to the code by the concurrent scenario families of the harness (hx-c09 conc: 2-4 "
+        "goroutines, readers only and readers racing one writer, every result must be the sequential model's answer for "
+        "a linearization compatible with real time; under recover and a watchdog)"
+        + ("; in this tier also run under the Go race detector" if thorough else "; the thorough tier repeats them under the Go race detector"),
         "key/value codecs of the caller are total and injective (identity on byte strings in model and harness); a nil "
         "serialized value is the empty value (after fix c0299ea)",
         "Size/Stream agree with the plain map on histories whose reopens happen without uncommitted changes "
@@ -42,6 +56,35 @@ def run(ctx):
     ]
 
 
+def conc_race(ctx, args):
+    """Runs the concurrent families with a -race build; a reported data race is a violation (replay = the run itself)."""
+    import glob, os
+    hxr = ctx.go_build("c09", race=True)
+    logp = os.path.join(ctx.build, "conc_race_log")
+    for f in glob.glob(logp + ".*"):
+        os.remove(f)
+    old = os.environ.get("GORACE")
+    os.environ["GORACE"] = "exitcode=0 log_path=" + logp
+    try:
+        ctx.corr(hxr, args, cases_name="conc_race.v", timeout=600)
+    finally:
+        if old is None:
+            del os.environ["GORACE"]
+        else:
+            os.environ["GORACE"] = old
+    reports = ""
+    for f in sorted(glob.glob(logp + ".*")):
+        reports += open(f, errors="replace").read()
+    n = reports.count("WARNING: DATA RACE")
+    ctx.cov.setdefault("extra", {})["conc_race_reports"] = n
+    if n:
+        ctx.violation({"kind": "data-race-between-method-calls", "reports": n, "seed": ctx.seed,
+                       "case": {"conc_race": True, "args": args},
+                       "what": "the Go race detector saw unsynchronised accesses between concurrent Map/Set method calls: the "
+                               "methods are not atomic steps (model assumption ATOMICITY)",
+                       "first_report": reports[:3500], "replay": "bin/check C09 --replay <this file>"}, tag="race")
+
+
 def replay(ctx, obj):
     """Re-runs the single history stored in a replay file (implementation + oracle + model); falls back to the whole check."""
     import json, os
@@ -49,7 +92,14 @@ def replay(ctx, obj):
     if isinstance(obj, dict) and "seed" in obj:
         ctx.seed = int(obj["seed"])
     case = obj.get("case") if isinstance(obj, dict) else None
-    if isinstance(case, dict) and "history" in case:
+    if isinstance(case, dict) and "conc" in case:      # one concurrent scenario: schedule-dependent, so several attempts
+        hx = ctx.go_build("c09")
+        path = os.path.join(ctx.build, "replay_conc.json")
+        json.dump({"conc": case["conc"]}, open(path, "w"))
+        ctx.corr(hx, ["conc", "--replay", path, "--repeat", "10"], cases_name="replay_conc.v")
+    elif isinstance(case, dict) and case.get("conc_race"):
+        conc_race(ctx, list(case.get("args") or ["conc", "--rounds", "6", "--ms", "400"]))
+    elif isinstance(case, dict) and "history" in case:
         hx = ctx.go_build("c09")
         ctx.proof_side(DIRS, "Properties/C09.v")
         path = os.path.join(ctx.build, "replay_case.json")
